@@ -707,7 +707,89 @@ def mixin_case(case):
     return r
 
 
+_STACK_PLUGIN = []
+
+
+def stack_plugin():
+    """The two mixins of the developer documentation (doc/source/devel/mixins.rst), registered the way a plugin is."""
+    if not _STACK_PLUGIN:
+        import types
+        from taurex.mixin import TemperatureMixin
+
+        class Doubler(TemperatureMixin):
+            def __init_mixin__(self):
+                pass
+
+            @property
+            def profile(self):
+                return super().profile * 2
+
+            @classmethod
+            def input_keywords(cls):
+                return ['doubler', ]
+
+        class Add50(TemperatureMixin):
+            def __init_mixin__(self, amount=50.0):
+                self._amount = amount
+
+            @property
+            def profile(self):
+                return super().profile + self._amount
+
+            @classmethod
+            def input_keywords(cls):
+                return ['add50', ]
+        mod = types.ModuleType('verif_stack_plugin')
+        Doubler.__module__ = Add50.__module__ = mod.__name__
+        mod.Doubler, mod.Add50 = Doubler, Add50
+        _STACK_PLUGIN.append(mod)
+    return _STACK_PLUGIN[0]
+
+
+def stack_case(case):
+    """Several mixins stacked on one base: 'a+b+base' applies b first and a last, as documented ("add 50 then double:
+    doubler+add50+isothermal"); every key reaches its owner."""
+    from taurex.data import Planet
+    r = core.R(case)
+    d, files = begin()
+    du.factory(reload=True).load_plugin(stack_plugin())
+    sel = case['stack']
+    items = [('profile_type', sel), ('T', '1000.0')]
+    if 'tempscalar' in sel:
+        items.append(('scale_factor', '3.0'))
+    if case.get('amount'):
+        items.append(('amount', '70.0'))
+    text = du.par_text([('Temperature', items)])
+    tag = sel
+    try:
+        obj = du.parser_for(d, text).generate_temperature_profile()
+        obj.initialize_profile(Planet(), 3, np.array([1e5, 1e3, 1e1]))
+        prof = np.asarray(obj.profile, dtype=float)
+        err = None
+    except Exception as e:
+        prof, err = None, e
+    r.observe(tag, None if prof is None else prof, type(err).__name__)
+    r.nontrivial = True
+    if not r.check(err is None, 'builds', 'stack/raised/%s/%s' % (tag, exc_sig(err)), exc=repr(err), text=text):
+        du.factory(reload=True)
+        return r
+    want = 1000.0
+    for m in reversed(sel.split('+')[:-1]):            # the mixin written next to the base acts first
+        want = {'doubler': want * 2, 'add50': want + (70.0 if case.get('amount') else 50.0), 'tempscalar': want * 3.0}[m]
+    r.eq(prof, np.full(3, want), 'stack-order', 'stack/order/' + tag, rtol=1e-12, text=text)
+    names = [b.__name__ for b in type(obj).__bases__]
+    r.check(len(names) == len(sel.split('+')), 'composite-class', 'stack/bases/' + tag, got=names)
+    du.factory(reload=True)          # the plugin is dropped again: no other case of this process sees it
+    return r
+
+
 def enumerate_mixin(ctx):
+    stacks = ['doubler+isothermal', 'add50+isothermal', 'doubler+add50+isothermal', 'add50+doubler+isothermal',
+              'tempscalar+add50+isothermal', 'add50+tempscalar+isothermal', 'doubler+tempscalar+add50+isothermal',
+              'add50+tempscalar+doubler+isothermal']
+    sc = [{'stack': s_} for s_ in stacks] + [{'stack': s_, 'amount': True} for s_ in stacks if 'add50' in s_]
+    ctx.run_cases('stack_case', sc, phase='stack')
+    du.factory(reload=True)
     cases = []
     for sec, kw, mcls, sel in mixin_specs():
         c0 = {'sec': sec, 'mixin': kw, 'mcls': mcls, 'base': sel}
@@ -981,6 +1063,27 @@ def aux_case(case):
                         got=repr(pa_), want=repr(pb_))
                 for u in (0.0, 0.3, 1.0):
                     r.eq(pa_.sample(u), pb_.sample(u), 'fitting-applied', 'fitting-apply/prior-sample/' + tag, rtol=1e-12)
+        # the options given for a parameter that is not (yet) fitted are settings all the same: they show when the
+        # parameter is switched on later on the live optimiser
+        for pname in sorted(opts):
+            ta, tb = pa.model.fittingParameters[pname], pb.model.fittingParameters[pname]
+            r.check(ta[4] == tb[4] and list(np.ravel(ta[6])) == list(np.ravel(tb[6])), 'fitting-applied',
+                    'fitting-apply/stored-settings/' + tag, param=pname, got=[ta[4], list(np.ravel(ta[6]))],
+                    want=[tb[4], list(np.ravel(tb[6]))], text=text)
+            oa.enable_fit(pname)
+            ob.enable_fit(pname)
+        oa.compile_params()
+        ob.compile_params()
+        r.check(list(oa.fit_names) == list(ob.fit_names), 'fitting-applied', 'fitting-apply/names-after-enable/' + tag,
+                got=list(oa.fit_names), want=list(ob.fit_names), text=text)
+        if list(oa.fit_names) == list(ob.fit_names):
+            r.eq(np.array(oa.fit_boundaries, float), np.array(ob.fit_boundaries, float), 'fitting-applied',
+                 'fitting-apply/boundaries-after-enable/' + tag, rtol=1e-12, text=text, names=list(oa.fit_names))
+            for pa_, pb_ in zip(oa.fitting_priors, ob.fitting_priors):
+                r.check(type(pa_) is type(pb_), 'fitting-applied', 'fitting-apply/priors-after-enable/' + tag,
+                        got=repr(pa_), want=repr(pb_))
+                r.eq(pa_.sample(0.3), pb_.sample(0.3), 'fitting-applied', 'fitting-apply/prior-sample-after-enable/' + tag,
+                     rtol=1e-12)
     elif kind == 'prebuilt':
         # generate_model() with some components handed over ready-made: those are used as they are, every other
         # one is still built from its own section of the file (non-default values in every section)
@@ -1192,7 +1295,8 @@ CLI_DIMS = {
     'binning': ['none', 'native', 'manual_wn', 'manual_wl_acc', 'manual_logwn', 'manual_wn+snr', 'observed'],
     # an observed spectrum next to the model: without a [Binning] section (and with bin_type = observed) the output is
     # binned to the observation, every explicit [Binning] choice wins over it
-    'obs': ['none', 'file3', 'file4'],
+    # 'self': the run observes itself through the instrument ([Observation] taurex_spectrum = self; needs [Instrument])
+    'obs': ['none', 'file3', 'file4', 'self'],
     'temp': ['npoint', 'isothermal', 'guillot'],
     'chem': ['one', 'two', 'ratio_list'],
     'contribs': ['abs', 'abs+ray', 'abs+ray+clouds', 'abs+lee', 'abs+flat', 'none+ray'],
@@ -1283,7 +1387,9 @@ def cli_par(case, v, xdir):
     tree = [('Global', glob), ('Chemistry', chem), ('Temperature', temp), ('Pressure', pres),
             ('Planet', planet), ('Star', star), ('Model', model)]
     b = case['binning']
-    if case.get('obs', 'none') != 'none':
+    if case.get('obs', 'none') == 'self':
+        tree.append(('Observation', [('taurex_spectrum', 'self')]))
+    elif case.get('obs', 'none') != 'none':
         tree.append(('Observation', [('observed_spectrum', cli_obs_file(case, xdir))]))
     if b == 'native':
         tree.append(('Binning', [('bin_type', 'native')]))
@@ -1381,6 +1487,15 @@ def cli_library(case, v, xdir):
     return owl, ospec, err, wn, flux
 
 
+def cli_self_expect(wn, flux):
+    """taurex_spectrum = self with the manual_wn+snr letter: the instrument's bins (centres and widths of the manual
+    binner) become the observation; the stored binned spectrum is the overlap mean over exactly those bins."""
+    from taurex.binning import SimpleBinner, FluxBinner
+    grid = np.linspace(1000.0, 3800.0, 6)
+    widths = np.asarray(SimpleBinner(grid).bindown(wn, flux)[3], float)
+    return grid, widths, np.asarray(FluxBinner(grid, widths).bindown(wn, flux)[1], float)
+
+
 def cli_case(case):
     r = core.R(case)
     fx.reset_caches()
@@ -1398,6 +1513,8 @@ def cli_case(case):
     tag = '%s/%s' % (case['model'], case['binning'] + ('' if case.get('obs', 'none') == 'none' else '+obs'))
     if case['binning'] == 'observed' and case.get('obs', 'none') == 'none':
         return r        # the program stops with a message: nothing to compare
+    if case.get('obs') == 'self' and not case['binning'].endswith('+snr'):
+        return r        # 'self' needs an instrument (documented): only the instrument letter is enumerated with it
     # library first, then the program, each from reset caches
     owl, ospec, oerr, nwn, nflux = cli_library(case, v, xdir)
     fx.reset_caches()
@@ -1432,14 +1549,22 @@ def cli_case(case):
         sp = f['Output']['Spectra']
         r.eq(sp['native_wngrid'][...], nwn, 'hdf5-native', 'hdf5-native-grid/' + tag, rtol=1e-12)
         r.eq(sp['native_spectrum'][...], nflux, 'hdf5-native', 'hdf5-native/' + tag, rtol=1e-12)
-        if not (case['binning'] == 'native' or (case['binning'] == 'none' and case.get('obs', 'none') == 'none')):
+        if case.get('obs') == 'self':
+            sg, swid, sbin = cli_self_expect(nwn, nflux)
+            r.eq(sp['binned_wngrid'][...], sg, 'hdf5-binned', 'hdf5-self-grid/' + tag, rtol=1e-12)
+            r.eq(sp['binned_wnwidth'][...], swid, 'hdf5-binned', 'hdf5-self-width/' + tag, rtol=1e-9)
+            r.eq(sp['binned_spectrum'][...], sbin, 'hdf5-binned', 'hdf5-self-binned/' + tag, rtol=1e-9)
+            if r.check('Observed' in f, 'hdf5-observed', 'hdf5-no-observed/' + tag):
+                r.eq(f['Observed']['binwidths'][...], swid, 'hdf5-observed', 'hdf5-self-observed-width/' + tag, rtol=1e-9)
+                r.eq(f['Observed']['wlgrid'][...], 10000.0 / sg, 'hdf5-observed', 'hdf5-self-observed-grid/' + tag, rtol=1e-12)
+        elif not (case['binning'] == 'native' or (case['binning'] == 'none' and case.get('obs', 'none') == 'none')):
             r.eq(sp['binned_spectrum'][...], ospec, 'hdf5-binned', 'hdf5-binned/' + tag, rtol=1e-12)
             r.eq(10000.0 / sp['binned_wngrid'][...], owl, 'hdf5-binned', 'hdf5-binned-grid/' + tag, rtol=1e-12)
         if case['binning'].endswith('+snr'):
             r.eq(sp['instrument_spectrum'][...], ospec, 'hdf5-instrument', 'hdf5-instrument/' + tag, rtol=1e-12)
             r.eq(sp['instrument_noise'][...], oerr, 'hdf5-instrument', 'hdf5-instrument-noise/' + tag, rtol=1e-12)
         r.check('ModelParameters' in f, 'hdf5-model', 'hdf5-no-model/' + tag)
-        if case.get('obs', 'none') != 'none':
+        if case.get('obs', 'none') not in ('none', 'self'):
             rows = cli_obs_rows(case)
             if r.check('Observed' in f, 'hdf5-observed', 'hdf5-no-observed/' + tag):
                 og = f['Observed']
